@@ -1,7 +1,8 @@
+\* C08 thorough, repaired world (BugH6 = FALSE, locks placed on healthy shards): C08 holds
 SPECIFICATION Spec
 CONSTANTS
   NS = 2
-  MaxEpoch = 3
+  MaxEpoch = 2
   BugH6 = FALSE
   CatSet = "c08x"
   Ops = {"Put", "Bcast", "GC", "Epoch", "SetMode", "FailPut"}
